@@ -82,7 +82,9 @@ func ParseOne(reader *bufio.Reader) (*ChangelogEntry, error) {
 		if err != nil {
 			return nil, err
 		}
-		if line == "\n" {
+		if trim(line) == "" {
+			/* Entries are separated by lines that are empty or hold white
+			 * space only (a CR, for one, in a file with CR LF line ends). */
 			continue
 		}
 		if !strings.HasPrefix(line, " ") {
